@@ -187,7 +187,12 @@ class BrokerRig(object):
                 b.withdraw_funds_from_portfolio(c["pid"], amt)
             elif op == "submit":
                 self.oid += 1
-                order = Order(b.current_dt, c["asset"], c["qty"])
+                # every third order carries a commission figure of its own and a caller-chosen id: the broker charges
+                # what the fee model says regardless (C05), and ids are only names
+                if self.oid % 3 == 0:
+                    order = Order(b.current_dt, c["asset"], c["qty"], commission=7.5, order_id="caller-%d" % self.oid)
+                else:
+                    order = Order(b.current_dt, c["asset"], c["qty"])
                 self.oid_of[order.order_id] = self.oid
                 b.submit_order(c["pid"], order)
             elif op == "update":
